@@ -404,6 +404,18 @@ func exec(c proto.Case, o *proto.Out) []string {
 			}
 			args := messages.OnResponse{Headers: map[string]string{}}
 			outs[i] = fmtSpoe(routing.VerifSPOERespActions(args, list))
+		case w[0] == "reqflow" || w[0] == "respflow":
+			outs[i] = execFlow(w[0] == "reqflow", w[1:])
+			np := 0
+			for _, x := range w[1:] {
+				if strings.HasPrefix(x, "p=") {
+					np++
+					o.Count("flow-" + w[0][:3] + "-produced:" + strings.SplitN(proto.Dec(x[2:]), " ", 2)[0])
+				}
+			}
+			if np >= 2 {
+				nontrivial = true
+			}
 		case w[0] == "legacyreq":
 			outs[i] = legacyReq(legacy, w[1:])
 			if len(w) > 2 && !strings.HasPrefix(outs[i], "bad-op") {
@@ -746,6 +758,94 @@ func enumerateLegacy(maxLen int, r *prng.R, emit func(proto.Case)) {
 		"legacyresp status=200 fixed=x", "legacyresp status=200 rh=zz cache=on", "legacyresp status=200 body=b cache=off", "legacyreq h=_ cache=on"}})
 }
 
+// enumerateFlows: flows mode.  ALL sequences of length <= 3 (thorough 4) over real processor configurations on one
+// request stream and on one response stream (header sets that conflict, deletes of headers an earlier processor
+// set, host/path/body rewrites, a body scrubber, scripts that add / delete / rewrite headers, a script that fails),
+// plus random longer ones.  The op line carries what each processor produced when it produced it.
+func enumerateFlows(tier string, r *prng.R, emit func(proto.Case)) {
+	reqProcs := []procSpec{
+		{K: "T", Set: map[string]string{"$.request.headers['x-first']": "one"}},
+		{K: "T", Set: map[string]string{"$.request.headers['x-second']": "two"}, Del: []string{"$.request.headers['x-first']"}},
+		{K: "T", Set: map[string]string{"$.request.headers['x-first']": "uno", "$.request.host": "h2.example.com", "$.request.path": "/v2/things"},
+			Del: []string{"$.request.headers.authorization"}},
+		{K: "T", Set: map[string]string{"$.request.body.a": "changed"}, Del: []string{"$.request.headers['x-second']", "$.request.headers['x-script']"}},
+		{K: "D", Block: []string{"email"}},
+		{K: "S", Script: "request.headers['x-script'] = 'S'; delete request.headers['authorization']; delete request.headers['x-first'];"},
+		{K: "S", Script: "request.headers['x-first'] = 'scripted'; request.headers['x-second'] = 'scripted';"},
+		{K: "S", Script: "throw new Error('boom');"},
+	}
+	respProcs := []procSpec{
+		{K: "T", Set: map[string]string{"$.response.headers['x-first']": "one"}},
+		{K: "T", Set: map[string]string{"$.response.headers['x-second']": "two"}, Del: []string{"$.response.headers['x-first']"}},
+		{K: "T", Set: map[string]string{"$.response.headers['x-first']": "uno", "$.response.body.a": "changed"}, Del: []string{"$.response.headers['x-upstream']"}},
+		{K: "T", Del: []string{"$.response.headers['x-first']", "$.response.headers['x-second']", "$.response.headers['x-script']"}},
+		{K: "S", Script: "response.headers['x-script'] = 'S'; delete response.headers['x-first'];"},
+		{K: "S", Script: "response.headers['x-first'] = 'scripted';"},
+	}
+	rq := flowReq{Method: "POST", URL: "api.example.com/v1/items", Path: "/v1/items", Query: "limit=10",
+		Headers: map[string]string{"host": "api.example.com", "content-type": "application/json", "authorization": "Bearer client"},
+		Body: `{"a":1,"mail":"joe@example.com"}`}
+	rs := flowReq{Method: "GET", URL: "api.example.com/v1/items", Status: 200,
+		Headers: map[string]string{"content-type": "application/json", "x-upstream": "u1"}, Body: `{"a":1}`}
+	maxLen := 3
+	if tier == "thorough" {
+		maxLen = 4
+	}
+	id := 0
+	run := func(isReq bool, base flowReq, alpha []procSpec, maxLen int) {
+		idx := make([]int, 0, maxLen)
+		var rec func()
+		rec = func() {
+			if len(idx) > 0 {
+				specs := make([]procSpec, len(idx))
+				for k, i := range idx {
+					specs[k] = alpha[i]
+				}
+				if line, ok := flowOp(isReq, base, specs); ok {
+					id++
+					emit(proto.Case{ID: fmt.Sprintf("fl%d", id), Ops: []string{line}})
+				}
+			}
+			if len(idx) == maxLen {
+				return
+			}
+			for i := range alpha {
+				idx = append(idx, i)
+				rec()
+				idx = idx[:len(idx)-1]
+			}
+		}
+		rec()
+	}
+	run(true, rq, reqProcs, maxLen)
+	run(false, rs, respProcs, maxLen)
+	for k := 0; k < 150; k++ {
+		rr := r.Fork()
+		isReq := rr.Chance(60)
+		alpha, base := respProcs, rs
+		if isReq {
+			alpha, base = reqProcs, rq
+		}
+		n := rr.Range(4, 7)
+		specs := make([]procSpec, n)
+		for j := range specs {
+			specs[j] = prng.Pick(rr, alpha)
+		}
+		base.Headers = map[string]string{}
+		for k2, v := range map[string]string{"content-type": "application/json", "x-first": "orig", "x-upstream": "u1", "authorization": "Bearer c", "host": "api.example.com"} {
+			if rr.Chance(60) {
+				base.Headers[k2] = v
+			}
+		}
+		if line, ok := flowOp(isReq, base, specs); ok {
+			id++
+			emit(proto.Case{ID: fmt.Sprintf("fg%d", id), Ops: []string{line}})
+		}
+	}
+	// (request and processor configurations are opaque to the model: only structurally malformed lines here)
+	emit(proto.Case{ID: "fx1", Ops: []string{"reqflow", "respflow bogus=1", "reqflow req=%7B%7D", "respflow procs=%5B%5D p=noop"}})
+}
+
 var keyPool = []string{"x", "a", "b", "x-lunar", "X", "a-b", "content-type", "é"}
 // values are BYTE strings: valid UTF-8 (é, €), ISO-8859-1 text, lone continuation byte, truncated 2/3/4-byte
 // sequences, overlong form, 0xC0/0xFF/0xFE, NBSP byte
@@ -911,6 +1011,7 @@ func gen(r *prng.R, f proto.Flags, emit func(proto.Case)) {
 	enumerate("eq", reqReps, "rq", "reqstart", "reqsite", reqLen, emit)
 	enumerate("es", respReps, "rs", "respstart", "respsite", respLen, emit)
 	enumerateAliased(reqLen, emit)
+	enumerateFlows(f.Tier, r.Fork(), emit)
 	legacyLen := 3
 	if f.Tier == "thorough" {
 		enumeratePolicy(emit)
